@@ -180,6 +180,10 @@ pub fn run_case(voc: &concretise::Vocab, case: &Value, dump: Option<&str>) -> Ve
                                    "same": d2 == base, "base_read": g.read_outcome}).to_string());
             }
         }
+        "c12" | "c12path" => {
+            let (fs, st) = load_case_files(voc, case);
+            events.extend(c12(voc, case, &fs, &st));
+        }
         "sink" => {
             events.extend(crate::sink::run_case(&files, &start, case));
         }
@@ -196,4 +200,107 @@ pub fn run_case(voc: &concretise::Vocab, case: &Value, dump: Option<&str>) -> Ve
     }
     events.push(json!({"ev":"done","id":id}).to_string());
     events
+}
+
+/// the file set of a case: rendered from the abstract schema set, or (corpus cases) read from a directory
+pub fn load_case_files(voc: &concretise::Vocab, case: &Value) -> (Vec<(String, String)>, String) {
+    if let Some(p) = case["path"].as_str() {
+        let path = std::path::Path::new(p);
+        let name = path.file_name().unwrap().to_string_lossy().to_string();
+        let mut files = vec![(name.clone(), std::fs::read_to_string(path).unwrap_or_default())];
+        if let Some(dir) = path.parent() {
+            let mut sibs: Vec<_> = std::fs::read_dir(dir).map(|d| d.filter_map(Result::ok).map(|e| e.path()).collect()).unwrap_or_default();
+            sibs.sort();
+            for s in sibs {
+                if s.is_file() && s.extension().is_some_and(|e| e == "xsd") && s != path {
+                    if let Ok(t) = std::fs::read_to_string(&s) {
+                        files.push((s.file_name().unwrap().to_string_lossy().to_string(), t));
+                    }
+                }
+            }
+        }
+        (files, name)
+    } else {
+        (concretise::render_files(voc, case), case["start"].as_str().unwrap_or("").to_string())
+    }
+}
+
+fn digest_of(files: &[(String, String)], order: Option<&[usize]>, start: &str) -> (String, String) {
+    let ftr = build_files(files, order, start);
+    let g = generate(&ftr, 1, false);
+    let outcome = if g.read_outcome != "doc" { format!("read:{}", g.read_outcome) } else { g.write_outcome.clone() };
+    (outcome, g.text.as_ref().map_or("none".to_string(), |t| fnv(t)))
+}
+
+fn permutations(n: usize) -> Vec<Vec<usize>> {
+    if n == 0 {
+        return vec![vec![]];
+    }
+    let mut out = vec![];
+    for p in permutations(n - 1) {
+        for i in 0..=p.len() {
+            let mut q = p.clone();
+            q.insert(i, n - 1);
+            out.push(q);
+        }
+    }
+    out
+}
+
+/// one generation in this process, printing "outcome digest" (used for the fresh-process runs of C12)
+pub fn digest_main(case_file: &str) {
+    let text = std::fs::read_to_string(case_file).expect("case file");
+    let mut lines = text.lines();
+    let vocab: Value = serde_json::from_str(lines.next().unwrap()).unwrap();
+    let voc = concretise::Vocab { v: vocab["vocab"].clone() };
+    let case: Value = serde_json::from_str(lines.next().unwrap()).unwrap();
+    let (files, start) = load_case_files(&voc, &case);
+    let (o, d) = digest_of(&files, None, &start);
+    println!("{o} {d}");
+}
+
+fn c12(voc: &concretise::Vocab, case: &Value, files: &[(String, String)], start: &str) -> Vec<String> {
+    let mut ev = vec![];
+    let mut push = |how: String, o: String, d: String| ev.push(json!({"ev":"gen","how":how,"outcome":o,"digest":d}).to_string());
+    // registration orders
+    let perms = if files.len() <= 4 { permutations(files.len()) } else { vec![(0..files.len()).collect()] };
+    for p in &perms {
+        let (o, d) = digest_of(files, Some(p), start);
+        push(format!("order:{}", p.iter().map(|i| (i + 1).to_string()).collect::<Vec<_>>().join(",")), o, d);
+    }
+    // repeated calls on one object
+    let ftr = build_files(files, None, start);
+    for n in 1..=3 {
+        let g = generate(&ftr, n, false);
+        let outcome = if g.read_outcome != "doc" { format!("read:{}", g.read_outcome) } else { g.write_outcome.clone() };
+        push(format!("call:{n}"), outcome, g.text.as_ref().map_or("none".to_string(), |t| fnv(t)));
+    }
+    // threads
+    let results: Vec<(String, String)> = std::thread::scope(|s| {
+        let hs: Vec<_> = (0..8).map(|_| s.spawn(|| digest_of(files, None, start))).collect();
+        hs.into_iter().map(|h| h.join().unwrap_or(("panic".to_string(), "none".to_string()))).collect()
+    });
+    for (k, (o, d)) in results.into_iter().enumerate() {
+        push(format!("thread:{k}"), o, d);
+    }
+    // fresh processes (fresh hash seeds)
+    let nproc = case["nproc"].as_u64().unwrap_or(6);
+    let dir = std::env::var("ZV_SCRATCH").unwrap_or_else(|_| std::env::temp_dir().to_string_lossy().to_string());
+    let _ = std::fs::create_dir_all(&dir);
+    let cf = format!("{dir}/c12_case_{}_{}.ndjson", std::process::id(), case["id"]);
+    let _ = std::fs::write(&cf, format!("{}\n{}\n", json!({"vocab": voc.v}), case));
+    for k in 0..nproc {
+        let out = std::process::Command::new(std::env::current_exe().unwrap()).args(["digest", &cf]).output();
+        match out {
+            Ok(o) if o.status.success() => {
+                let t = String::from_utf8_lossy(&o.stdout).to_string();
+                let mut it = t.split_whitespace();
+                push(format!("process:{k}"), it.next().unwrap_or("?").to_string(), it.next().unwrap_or("?").to_string());
+            }
+            Ok(o) => push(format!("process:{k}"), format!("exit:{:?}", o.status.code()), "none".to_string()),
+            Err(e) => push(format!("process:{k}"), format!("spawn:{e}"), "none".to_string()),
+        }
+    }
+    let _ = std::fs::remove_file(&cf);
+    ev
 }
